@@ -85,8 +85,16 @@ func (g *G) close() {
 	g.isOpen = false
 }
 
+// hexArg: as interp.Hex, but a nil slice is passed on as nil (the API must treat it as empty)
+func hexArg(b []byte) string {
+	if b == nil {
+		return "nil"
+	}
+	return interp.Hex(b)
+}
+
 func (g *G) put(k, v []byte) {
-	g.do("put "+interp.Hex(k)+" "+interp.Hex(v), "put ok")
+	g.do("put "+hexArg(k)+" "+hexArg(v), "put ok")
 	g.ref[string(k)] = append([]byte{}, v...)
 	g.afterMut()
 }
@@ -217,6 +225,9 @@ func (g *G) value() []byte {
 	}
 	switch g.r.intn(10) {
 	case 0:
+		if g.r.chance(50) {
+			return nil // a nil slice: the same as an empty value for the API
+		}
 		return []byte{}
 	case 1:
 		return g.r.bytes(400 + g.r.intn(200))
